@@ -369,7 +369,7 @@ func rulesC15(c *Ctx) {
 			continue
 		}
 		n := 0
-		ast.Inspect(fn.Decl.Body, func(nd ast.Node) bool {
+		p.InspectDeep(fn, func(nd ast.Node) bool {
 			ix, ok := nd.(*ast.IndexExpr)
 			if !ok {
 				return true
@@ -379,6 +379,20 @@ func rulesC15(c *Ctx) {
 				return true
 			}
 			if _, isLocal := unparen(ix.X).(*ast.Ident); !isLocal {
+				return true
+			}
+			// only the maps keyed by the name of a queue or partition of the document
+			named := false
+			ast.Inspect(ix.Index, func(m ast.Node) bool {
+				if sel, isSel := m.(*ast.SelectorExpr); isSel && sel.Sel.Name == "Name" {
+					tn := p.TypeName(p.TypeOf(sel.X))
+					if tn == "configs.QueueConfig" || tn == "configs.PartitionConfig" {
+						named = true
+					}
+				}
+				return true
+			})
+			if !named {
 				return true
 			}
 			n++
